@@ -1243,6 +1243,8 @@ where
         self.pid_pubcomp.clear();
         self.store.clear();
         self.qos2_publish_handled.clear();
+        // No outbound exchange survives the reset of the session
+        self.publish_send_count = 0;
     }
 
     /// Send all stored packets for retransmission
